@@ -13,6 +13,7 @@ out.append("Each change below was written by a fresh sub-agent that was given ON
            "`seeded/<id>/meta.json` records what the change needs in order to manifest and what was run.\n")
 rows = []
 missed_then = []
+other_only = []
 n = det = 0
 for f in sorted(glob.glob(V + "/seeded/*/meta.json")):
     m = json.load(open(f))
@@ -32,11 +33,13 @@ for f in sorted(glob.glob(V + "/seeded/*/meta.json")):
     elif own and own[0]["exit"] == 1 and "would have" in (own[0].get("note") or "").lower().replace("would have missed", "would have"):
         missed_then.append(sid + "*")
     det += 1 if final_caught else 0
+    if final_caught and own and not any(c["exit"] == 1 for c in own):
+        other_only.append(sid)
     ok = m.get("confirmed_by_coordinator", {})
     conf = "yes" if all(ok.get(k) for k in ("demo_fails_with_change", "demo_passes_without_change", "full_suite_passes_with_change")) else "NO"
     rows.append(f"| {sid} | {m['property']} | {m['summary'][:260].replace('|', '/')} | {conf} | {'; '.join(cks).replace('|', '/')} |")
-out.append(f"\n{n} changes kept, {det} detected by the quick tier of the property's own check"
-           + (f" ({', '.join(missed_then)} only after the check was strengthened; * = strengthened after reading what the change needs and before the first run - see the notes in the last column and section 10.5)" if missed_then else "") + ".\n")
+out.append(f"\n{n} changes kept, {det} detected by the quick tier of a registered check (the property's own check, except where the notes say otherwise)"
+           + (f" ({', '.join(missed_then)} only after the check was strengthened; * = strengthened after reading what the change needs and before the first run - see the notes in the last column and section 10.5)" if missed_then else "") + (f" Detected only by the check of another property: {', '.join(other_only)}." if other_only else "") + ".\n")
 out.append("\n| seed | property | change | confirmed | checks run against it (quick tier) |\n|---|---|---|---|---|\n" + "\n".join(rows) + "\n")
 
 st = V + "/seeded/selftest.json"
